@@ -13,6 +13,7 @@ import Driver.Mlpg
 import Driver.Voc
 import Driver.Pipe
 import Driver.Eng
+import Driver.Lab
 
 open Drv
 
@@ -22,6 +23,8 @@ def dispatch (op : String) : Option (P Verdict) :=
   | "vset" => some Drv.Wts.runVset
   | "wset" => some Drv.Wts.runWset
   | "wavg" => some Drv.Wts.runWavg
+  | "lines" => some Drv.Lab.runLines
+  | "forms" => some Drv.Lab.runForms
   | "thr" => some Drv.Eng.runThr
   | "ht" => some Drv.Eng.runHt
   | "vol" => some Drv.Eng.runVol
